@@ -69,6 +69,12 @@ def run(rep, tier, rng):
                     {"op": "bind", "alg": al, "a": a, "b": bb, "kind": kind, "obs": c.obs_json(o)},
                     ("bind", al, tuple(a), tuple(bb)), nontrivial=any(a) and any(bb),
                     sample={"op": "bind", "alg": al, "a": a, "b": bb, "observed": c.obs_json(o)} if d in (4, 5) and kind == "random" else None)
+                if len(a) <= 16 and len(a) == len(bb) and kind in ("random", "linear-left", "shape-alt") and any(a) and any(bb):
+                    # bilinearity holds at every magnitude: operands scaled by 2^-20 (result rescaled exactly by 2^40)
+                    osm = c.observe(lambda: A.bind(algs.fl(a) * 2.0 ** -20, algs.fl(bb) * 2.0 ** -20) * 2.0 ** 40)
+                    add(f"check_bind {al} {c.zlist(a)} {c.zlist(bb)} {algs.tol_for(a, bb, d=d)} {obs_t(osm, algs.enc_vec)}",
+                        {"op": "bind-small-operands", "alg": al, "a": a, "b": bb, "kind": kind, "obs": c.obs_json(osm)},
+                        ("bind-small", al, tuple(a), tuple(bb)))
                 if len(a) <= 16 and len(a) == len(bb) and kind in ("basis", "random"):
                     oi = c.observe(lambda: A.bind(np.array(a, dtype=int), np.array(bb, dtype=int)))
                     add(f"check_bind {al} {c.zlist(a)} {c.zlist(bb)} {algs.tol_for(a, bb, d=d)} {obs_t(oi, algs.enc_vec)}",
@@ -151,8 +157,8 @@ def run(rep, tier, rng):
             bind_case(algs.rand_vec(rng, la), algs.rand_vec(rng, lb), "unequal-grid")
         # invalid dimensionalities for the square algebras
         if al != "AHrr":
-            for d in (2, 3, 5, 8, 12, 15):
-                v = algs.rand_vec(rng, d)
+            for d, zero in [(dd, z) for dd in (2, 3, 5, 8, 12, 15) for z in (False, True)]:
+                v = [0] * d if zero else algs.rand_vec(rng, d)        # the zero vector of a non-square length is rejected as well
                 o = c.observe(lambda: A.bind(algs.fl(v), algs.fl(v)))
                 add(f"check_bind {al} {c.zlist(v)} {c.zlist(v)} {algs.tol_for(v, v, d=d)} {obs_t(o, algs.enc_vec)}",
                     {"op": "bind", "alg": al, "a": v, "b": v, "kind": "invalid-d", "obs": c.obs_json(o)},
